@@ -1,0 +1,42 @@
+//go:build verif
+
+package webp
+
+import "github.com/deepteams/webp/internal/lossless"
+
+// Re-exports of internal/lossless kernels for the /verif harness (build tag verif).
+
+type VerifLosslessTransform = lossless.VerifTransform
+
+func VerifLosslessCopyBlock32(data []uint32, pos, dist, length int) {
+	lossless.VerifCopyBlock32(data, pos, dist, length)
+}
+
+func VerifLosslessExpandColorMap(numColors, bits int, palette []uint32) []uint32 {
+	return lossless.VerifExpandColorMap(numColors, bits, palette)
+}
+
+func VerifLosslessColorIndexInverse(bits, xsize, ysize int, colorMap, src, dst []uint32) {
+	lossless.VerifColorIndexInverse(bits, xsize, ysize, colorMap, src, dst)
+}
+
+func VerifLosslessApplyInverseTransforms(width, height, codedWidth int, ts []VerifLosslessTransform, coded []uint32) []uint32 {
+	return lossless.VerifApplyInverseTransforms(width, height, codedWidth, ts, coded)
+}
+
+func VerifLosslessHuffmanDecode(rootBits int, codeLengths []int, bits uint32) (int, int, bool) {
+	return lossless.VerifHuffmanDecode(rootBits, codeLengths, bits)
+}
+
+func VerifLosslessPlaneCodeToDistance(xsize, planeCode int) int {
+	return lossless.VerifPlaneCodeToDistance(xsize, planeCode)
+}
+
+// VerifLosslessDecodeVP8L decodes a bare VP8L payload (no RIFF container).
+func VerifLosslessDecodeVP8L(data []byte) (w, h int, pix []byte, err error) {
+	img, err := lossless.DecodeVP8L(data)
+	if err != nil {
+		return 0, 0, nil, err
+	}
+	return img.Rect.Dx(), img.Rect.Dy(), img.Pix, nil
+}
